@@ -36,6 +36,25 @@ def log(*a):
     print(*a, file=sys.stderr, flush=True)
 
 
+def wisdom_state():
+    """names, sizes and modification times of the FFTW wisdom files.  Inovesa plans with FFTW_PATIENT (timing dependent) and caches the plan
+    per transform length in one file; a file written *while* runs are in flight means that runs of that length may have computed with
+    different plans (different rounding).  Every parallel phase therefore compares this before/after and repeats itself until it is stable,
+    so that whatever is compared bitwise was computed from the same wisdom - also on a cold cache."""
+    d = os.path.join(XDG, "inovesa", "fftwisdom")
+    out = []
+    try:
+        for n in sorted(os.listdir(d)):
+            st = os.stat(os.path.join(d, n))
+            out.append((n, st.st_size, st.st_mtime_ns))
+    except OSError:
+        pass
+    return tuple(out)
+
+
+WISDOM_REPEATS = []   # (what, pass number, files that changed) - copied into the evidence
+
+
 class Result:
     """what a check run covered and found"""
 
@@ -130,8 +149,20 @@ def run_harness(res, name, tier, extra=None, kind="plain", nshards=None, deadlin
         return i, r, out
 
     docs, hashes, crashed = [], set(), []
-    with cf.ThreadPoolExecutor(nshards) as ex:
-        for i, r, out in ex.map(one, range(nshards)):
+    for attempt in range(4):
+        w0 = wisdom_state()
+        with cf.ThreadPoolExecutor(nshards) as ex:
+            shard_results = list(ex.map(one, range(nshards)))
+        w1 = wisdom_state()
+        if w1 == w0:
+            break
+        changed = sorted(set(x[0] for x in set(w1) ^ set(w0)))
+        WISDOM_REPEATS.append(("harness " + name, attempt, changed[:12]))
+        log("[wisdom] %s: %d wisdom file(s) written during the sharded phase (%s) - repeating it" % (name, len(changed), ", ".join(changed[:6])))
+    else:
+        res.violate("%s/harness=%s/fftw-wisdom-not-stable" % (res.prop, name), "tier=%s" % tier, "wisdom files still change after 4 passes", replay=dict(harness=name, kind=kind, tier=tier))
+    if True:
+        for i, r, out in shard_results:
             if r.returncode != 0 or not os.path.exists(out):
                 crashed.append((i, r.returncode, (r.stderr or "")[-2000:]))
                 continue
@@ -239,6 +270,8 @@ def finish(res, confirm=None):
                samples=res.samples[:60] or ["(none)"], exhaustive=bool(res.exhaustive),
                bounds_completed=res.bounds_done, not_completed=res.not_completed,
                known_findings_hit=[k for k, _, _ in hits], unreproducible=len(unrepro))
+    if WISDOM_REPEATS:
+        cov["parallel_phases_repeated_until_the_fftw_wisdom_was_stable"] = [list(x) for x in WISDOM_REPEATS]
     if res.states is not None:
         cov.update(states=int(res.states), transitions=int(res.transitions),
                    traces_validated_against_impl=int(res.traces or 0))
